@@ -19,10 +19,10 @@ NEEDS = ["cli"]
 RULE = ("spectra with 1-4 axes (lengths 1-6 incl. axes of length 1; positive real / integer values, a quarter of the inputs signed (differences, fold --fill minus-one output); npy or text input) x ALL 16 subsets of "
         "{marginalize, project, mask-monomorphic, normalize} x random admissible axis sets (-m or -M) and targets (--project-shape or "
         "-individuals) x output {text precision 0/6/12/18/30, npy}; each combined run is compared byte-for-byte with the chain of single-option runs "
-        "through npy pipes, and (npy / precision >= 12 output) cell by cell with the documented pipeline evaluated in exact rational arithmetic (1e-9 of sum|x|). Direct checks: mask zeroes exactly the first and last cell, normalize sums to 1 (1e-12*cells) and preserves ratios "
+        "through npy pipes, and (npy / precision >= 12 output) cell by cell with the documented pipeline evaluated in exact rational arithmetic (1e-9 of sum|x|). The last combined command of every input also with `-o FILE` (path absent / empty / longer earlier result / longer garbage / the input itself): the file must hold the bytes a pipe receives. Four spectra with more than 2^16 entries through plain / -n / mask view in text and npy. Direct checks: mask zeroes exactly the first and last cell, normalize sums to 1 (1e-12*cells) and preserves ratios "
         "(1e-12), plain view reproduces the input within 0.5*10^-p. Non-trivial: >=2 options active; distinct = digest(input, argv).")
 ASSUMPTIONS = ["npy pipes between chained invocations are lossless (C07/C15 check that separately)"]
-FLOORS = {"quick": {"evaluations": 500, "distinct_nontrivial": 300, "counts": {"combined_vs_chain": 500, "mask_checks": 100, "normalize_checks": 100, "pipeline_vs_exact": 250, "signed_inputs": 10}},
+FLOORS = {"quick": {"evaluations": 500, "distinct_nontrivial": 300, "counts": {"combined_vs_chain": 500, "mask_checks": 100, "normalize_checks": 100, "pipeline_vs_exact": 250, "signed_inputs": 10, "big_spectrum_runs": 16, "output_path_runs": 100}},
           "thorough": {"evaluations": 30000, "distinct_nontrivial": 15000, "counts": {"combined_vs_chain": 30000}}}
 NSHARD = 32
 
@@ -36,10 +36,46 @@ def load_npy(b):
     return np.load(io.BytesIO(b), allow_pickle=False)
 
 
+def check_big(S, p):
+    """Spectra with more than 2^16 entries through plain / normalizing / masking `view`, text and npy output."""
+    rng = rng_for(S.seed, "c13", p["name"], "big")
+    shape = rng.choice([[65537], [300, 300], [70001], [17, 17, 17, 17], [2, 32769], [131073], [41, 41, 41]])
+    n = O.prod(shape)
+    vals = [float((k * 7919) % 1000 + 1) for k in range(n)]
+    inp = GS.npy_bytes(shape, vals) if rng.random() < 0.5 else GS.text_spectrum(shape, vals, 0)
+    tot = sum(vals)
+    for args, exp in ((["view", "--precision", "2"], vals), (["view", "-n", "--precision", "12"], [v / tot for v in vals]),
+                      (["view", "--mask-monomorphic", "-O", "npy"], [0.0] + vals[1:-1] + [0.0]), (["view", "-O", "npy"], vals)):
+        r = cli.sfs(args, stdin=inp, timeout=120)
+        S.count("big_spectrum_runs")
+        wit = {"level": "C", "argv": r.argv, "big_shape": shape, "input": "value k = (k * 7919) %% 1000 + 1 as %s" % ("npy" if inp[:1] == b"\x93" else "text"), "run": r.brief()}
+        if r.rc != 0:
+            S.viol("C13:fail", "[C %s on shape %r (%d entries)] rc %s %r" % (" ".join(args), shape, n, r.rc, r.err[:200]), wit)
+            continue
+        if "npy" in args:
+            arr = load_npy(r.out)
+            got_shape, got = list(arr.shape), [float(x) for x in arr.reshape(-1)]
+        else:
+            ps = E.parse_text_spectrum(r.out)
+            try:
+                got_shape, got = (ps[0], [float(t) for t in ps[1]]) if ps else (None, [])
+            except ValueError as e_:
+                S.viol("C13:big-spectrum", "[C %s on shape %r] the output holds a token that is not a number: %s" % (" ".join(args), shape, e_), wit)
+                continue
+        tol = 1e-9 if "npy" in args else 0.5 * 10.0 ** -int(args[-1]) + 1e-12
+        bad = [(j, g, e) for j, (g, e) in enumerate(zip(got, exp)) if abs(g - e) > tol]
+        if got_shape != shape or len(got) != n or bad:
+            S.viol("C13:big-spectrum", "[C %s on shape %r] output has shape %r and %d values (expected %d); first differences (flat, got, expected) %r" % (
+                " ".join(args), shape, got_shape, len(got), n, bad[:3]), wit)
+        S.case(key=digest(["big", shape, args]), nontrivial=True)
+
+
 def shard(S, p):
     if "replay" in p:
         S.inconc("witness carries argv + input for manual replay")
         return
+    if p["i"] % 8 == 0:
+        check_big(S, p)
     seed = S.seed
     for i in range(p["n"]):
         rng = rng_for(seed, "c13", p["name"], i)
@@ -158,6 +194,8 @@ def shard(S, p):
             S.case(key=digest([inp.hex()[:2000], combined.argv]), nontrivial=len(stages) >= 2)
             if i == 0 and p["i"] == 0 and subset == (True, True, True, True):
                 S.sample({"combined": combined.argv, "chain": [r.argv for r in chain_runs], "stdout": combined.out[:200].decode("latin1")})
+        from ..engines import outpath
+        outpath.check_file_equals_pipe(S, "C13:file-vs-pipe", "C view on shape %r" % shape, rng, ["view"] + margs + pargs + kargs + nargs + oargs, inp)
         # direct checks through npy
         base = load_npy(cli.sfs(["view", "-O", "npy"], stdin=inp).out)
         if not np.array_equal(base.reshape(-1), np.array(vals)) and inp[:1] == b"\x93":
